@@ -144,3 +144,7 @@ Definition run_its7 (its : gr) (core reindex explicit_h : bool) : tok :=
   L [run_its6 its core reindex explicit_h; t_mid (its_to_gml_mid its core reindex explicit_h)].
 Definition run_transform2 (Lg Rg Kg : gr) (reindex explicit_h : bool) : tok :=
   L [run_transform Lg Rg Kg reindex explicit_h; t_mid (nx_to_gml_mid Lg Rg Kg reindex explicit_h)].
+
+(** its_to_gml(..., rule_name=name): the text with another rule name, and what the reader makes of it *)
+Definition run_its_named (its : gr) (core reindex explicit_h : bool) (name : str) : tok :=
+  let t := render name (its_to_gml its core reindex explicit_h) in L [t_str t; topt t_parsed (text_to_nx t)].
